@@ -58,6 +58,12 @@ pub uninterp spec fn trimmed(s: Seq<char>) -> Seq<char>;
 pub assume_specification<'a>[ str::trim ](s: &'a str) -> (r: &'a str)
     ensures is_trim_of(r@, s@), r@.len() <= s@.len(), r@ == trimmed(s@);
 
+// TRUSTED(T3): trimming a trimmed text changes nothing; a cloned char is the char
+pub axiom fn axiom_trim_idempotent(s: Seq<char>)
+    ensures trimmed(trimmed(s)) == trimmed(s);
+pub axiom fn axiom_cloned_char(a: char, b: char)
+    ensures vstd::pervasive::cloned::<char>(a, b) ==> a == b;
+
 // TRUSTED(T3): char::is_ascii_digit
 pub assume_specification[ char::is_ascii_digit ](c: &char) -> (r: bool)
     ensures r == ('0' <= *c && *c <= '9');
